@@ -116,11 +116,46 @@ def main():
     mm = [m for _, r in badr for m in r.printed("MISMATCH")]
     expect("configuration: one flipped bit of a stream is reported for that graph only", len(mm) == 1 and mm[0][1] == 2, str(mm)[:200])
 
+    # 4b. adoption replay (XpmAdopt): with the guarded read of the pid file taken away again (as before F22) and with the
+    #     second look at the success marker taken away, the replay must report it; untouched, it must not
+    from . import adopt
+    from experimaestro import commandline as _cl
+
+    torn = {"out": "ok", "start": "run", "plan": [None, None, "JMark", "JUnpid", "JExit", None, None]}
+    expect("adoption: the behaviour 'job ends between is_file and read_text' is accepted on the tree", not adopt.judge(adopt.one(torn)))
+    orig = _cl.CommandLineJob.aio_process
+
+    async def unguarded(self):
+        import json as _json
+
+        from experimaestro.connectors import Process
+
+        if self._process:
+            return self._process
+        if self.pidpath.is_file():
+            p = Process.fromDefinition(self.launcher.connector, _json.loads(self.pidpath.read_text()))
+            if p is not None and await p.aio_isrunning():
+                return p
+        return None
+
+    _cl.CommandLineJob.aio_process = unguarded
+    try:
+        bad = adopt.judge(adopt.one(torn))
+    finally:
+        _cl.CommandLineJob.aio_process = orig
+    expect("adoption: the unguarded read is reported (exception / hang) on the same behaviour", {c for c, _ in bad} & {"NoCrash", "hang"}, str(bad)[:200])
+    r = tlc.tlc("XpmAdopt.tla", "MC_Adopt.cfg", workers=1, coverage=True, timeout=600)
+    cov = r.coverage()
+    missing = [a for a in ("JMark", "JUnpid", "JExit", "JKilled", "SDone1", "SPidFile", "SPidRead", "SProcOpen", "SAlive", "SWait", "SDone2") if cov.get(a, (0, 0))[1] == 0]
+    expect("coverage: every action of MC_Adopt is taken", not missing and r.ok, f"never taken: {missing} {r.error}")
+
     # 5. no vacuity: every action of the exhaustive scheduler / job-directory models is taken
     for mod, cfg, actions in (
         ("MC_Sched.tla", "MC_Sched_tok.cfg", ["AUserSubmit", "ARegister", "AUserStart", "ASubmitReturn", "ATaskStep", "ADepCheck", "ANotify", "AThreadDone",
                                               "AProcLock", "AProcExit", "WaitCall", "WaiterStep", "WaitReturn"]),
         ("MC_Sched.tla", "MC_Sched_restart.cfg", ["Restart", "DieAnywhere", "KillOp"]),
+        ("MC_Sched.tla", "MC_Sched_dag.cfg", ["NewXp"]),
+        ("MC_TokenFS.tla", "MC_TokenFS_retotal_quick.cfg", ["OnInfo"]),
         ("MC_JobDir.tla", "MC_JobDir_TRUE.cfg", ["Spawn", "Step", "BodyBegin", "BodyEnd", "BodyFail", "Signal", "HLock", "PidWrite"]),
     ):
         r = tlc.tlc(mod, cfg, coverage=True, timeout=1500)
